@@ -163,12 +163,65 @@ def cond_lets(c):
     return out
 
 
+def n5(body):
+    """N5: a struct literal field (or shorthand) that is a bare name of an immutable pure `let` still valid at that
+    point reads as the let's definition: `let location = start..end; Meta { location, .. }` is `Meta { location:
+    start..end, .. }`."""
+    from pathcond import _subst, find_path, pure_let_env
+
+    structs = [n for n in walk(body) if n["k"] == "Struct" and any(strip_(f["e"]).get("k") == "Path" for f in n["fields"])]
+    used = set()
+    for st in structs:
+        path = find_path(body, st)
+        if path is None:
+            continue
+        env = pure_let_env(path)
+        if not env:
+            continue
+        for f in st["fields"]:
+            e = strip_(f["e"])
+            if e.get("k") == "Path" and e["path"] in env:
+                used.add(e["path"])
+                f["e"] = _subst(e, env)
+                f["shorthand"] = False
+    # a let that is no longer referenced in its scope is dropped (the literal now carries its definition)
+    if used:
+        import re
+
+        def refs_in(nodes, name):
+            for r in nodes:
+                for n in walk(r):
+                    if n["k"] == "Path" and n["path"] == name:
+                        return True
+                    if n["k"] == "Macro" and re.search(r"(?<![\w.])%s(?!\w)" % re.escape(name), n.get("raw", "")):
+                        return True
+                    if n["k"] == "Struct" and any(f.get("shorthand") and f["name"] == name for f in n["fields"]):
+                        return True
+            return False
+
+        for blk in [n for n in walk(body) if n["k"] == "Block"]:
+            keep = []
+            stmts = blk["stmts"]
+            for i, s_ in enumerate(stmts):
+                if s_.get("k") == "Local" and s_["pat"]["k"] == "PIdent" and s_["pat"]["name"] in used and not s_["pat"].get("mut") and s_.get("else") is None and not refs_in(stmts[i + 1:], s_["pat"]["name"]):
+                    continue
+                keep.append(s_)
+            blk["stmts"] = keep
+
+
+def strip_(e):
+    while isinstance(e, dict) and e.get("k") in ("Paren", "Ref"):
+        e = e["e"]
+    return e if isinstance(e, dict) else {}
+
+
 def normalise_fn(fn):
     body = fn.get("body")
     if not body:
         return
     n1(fn)
     n3(body)
+    n5(body)
     for i in fn["sig"]["inputs"]:
         if not i.get("self") and i.get("pat"):
             apply_scope(i["pat"], [body])
